@@ -195,12 +195,16 @@ pub fn gen_k(r: &mut Rng) -> f32 {
 }
 
 pub fn gen_area(r: &mut Rng) -> f32 {
-    match r.below(10) {
+    match r.below(12) {
         0 => 0.0011,
         1 => 0.5,
         2 => 1.0,
         3 => 100000.0,
         4 => 37.5,
+        // areas that are not multiples of 0.01 m2 (small, medium, large)
+        5 => *r.pick(&[0.004f32, 0.0123, 2.345, 0.3333]),
+        6 => (1000 + r.below(9_000_000)) as f32 / 10000.0,
+        7 => (1 + r.below(99_999)) as f32 / 1000.0,
         _ => (11 + r.below(500000)) as f32 / 100.0,
     }
 }
